@@ -69,6 +69,25 @@ CHECKS['C20'] = ('exploration',
     'behaviour for pre-release versions when a comparator names a pre-release is recorded, not asserted.',
     'DESIGN.md 3/C20')
 
+
+
+def auto(pid, category, technique, note):
+    """level text = the check module's own RULE string (single source of truth for what is generated and counted)"""
+    import importlib
+    sys.path.insert(0, VERIF)
+    sys.path.insert(0, os.path.join(VERIF, '.deps'))
+    mod = importlib.import_module('checks.' + os.path.basename(glob.glob(os.path.join(VERIF, 'checks', pid.lower() + '_*.py'))[0])[:-3])
+    text = ' '.join(str(mod.RULE).split())
+    CHECKS[pid] = (category, technique, text, note, f'DESIGN.md 3/{pid}')
+
+
+auto('C01', 'exploration',
+     'Hypothesis typed grammar of core-language programs (well-typed, one injected fault, subdir/subproject splits) -> real meson setup --backend=none (in-process, disagreements re-run in a fresh subprocess) vs an independent reference evaluator written from Syntax.md and the yaml reference: exit status, Message: trace, in-language asserts of every final value',
+     'Trusts harness/refmeson.py (reference evaluator; self-tested on the documentation examples); programs the documentation leaves undefined are excluded and counted; error text and the way a failing run fails (located ERROR vs traceback) are not compared.')
+auto('C02', 'exploration',
+     'exhaustive enumeration of token sequences + Hypothesis token soups / grammar programs / corpus mutations + every build file of the repository (+ atheris bytes in thorough) against the oracle: located MesonException XOR byte-exact RawPrinter round trip, and recorded extents of every call/array cut exactly that construct out of the text',
+     'Extents are judged by an independent scanner (token boundaries) written for the check; exhaustive only up to the stated token bound; nesting deeper than the recursion budget is excluded from the campaigns (known finding C02 crash/RecursionError:print keeps a dedicated probe).')
+
 NOT_YET = 'no check is registered for this property in this revision (see DESIGN.md section 8 for status)'
 
 
